@@ -427,9 +427,10 @@ def judge_pd(ctx, case, impl, outs, report_case=None):
                         ctx.fail(rc, "value-equals-definition",
                                  f"{rel}: pair {k} ({i},{j}): evo {vals[k]!r}, definition {w!r} (tol {tol:.3g})")
                         break
+            consistent = [j for _, j, _ in want] == ids and len(want) == len(vals)
             for name, clause in (("moved", "unchanged-under-separate-rigid-motions"), ("same", "zero-for-same-relative-motion")):
                 o = impl.get(name)
-                if o is None or case["unit"] != "f":
+                if o is None or case["unit"] != "f" or not consistent:      # (inconsistent pair lists are reported above)
                     continue
                 if name == "same" and rel == "point_distance_error_ratio":
                     # zero-distance pairs are skipped on both sides: lengths still equal
